@@ -1,6 +1,6 @@
 """C01 - every submitted future resolves and no API call hangs."""
 from . import base
-from .base import Prop, gen_knobs, gen_model, gen_task, submit_op, hang_violations
+from .base import focus_hot, Prop, gen_knobs, gen_model, gen_task, submit_op, hang_violations
 
 ALL_KINDS = ["work", "work", "work", "raise", "exit", "kill", "bad_result", "bad_result_rebuild",
              "big", "bad_arg", "bad_arg_rebuild", "big_arg", "slow_arg"]
@@ -86,7 +86,7 @@ def gen_mixed(rng, tier, kinds=None, allow_faults=True, ends=None, modes=("plain
                 main.append(submit_op("A0", fid, dict(id=fid, kind="work", dur=0.01), []))
                 main.append({"op": "result", "f": fid})
                 fid += 1
-    spec = dict(family="mixed", knobs=gen_knobs(rng, tier), model=gen_model(rng), threads=threads,
+    spec = dict(family="mixed", knobs=focus_hot(rng, gen_knobs(rng, tier), threads), model=gen_model(rng), threads=threads,
                 faults=gen_faults(rng, workers) if allow_faults else [],
                 hold_refs=rng.random() < 0.8)
     return spec
